@@ -23,7 +23,7 @@ LEVEL_ASSUMPTIONS = [
     "values that do not fit the packing's integer type cannot be represented "
     "and are skipped",
 ]
-REQUIRED = {"suite_runs": 1, "contract_validate_evaluated": 200, "judged_feasible": 50, "judged_infeasible": 50,
+REQUIRED = {"suite_runs": 1, "contract_validate_evaluated": 50, "judged_feasible": 50, "judged_infeasible": 50,
             "text_roundtrips": 20}
 
 
